@@ -94,8 +94,29 @@ def run_unit(ctx, unit):
         # the same bytes as the only file of a directory argument, and as a file of a directory next to another directory
         ("dir", core.Case(args + ["@D@/d1"], b"", files=[("d1/inner/whole.json", data)])),
     ]
+    # the selector names are matched leniently (letter case, '_' for '-'): every spelling is the same selector; and each
+    # selector means the same whether or not the others are mentioned in the run
+    def alt(a, k):
+        if not a.startswith("&"):
+            return a
+        name, _, col = a.partition("=")
+        name = (name.upper(), name.replace("-", "_"), name.title().replace("-", "_"), "".join(ch.upper() if (i + k) % 3 == 0 else ch for i, ch in enumerate(name)))[k % 4]
+        return name + "=" + col
+    k = unit["sched_seed"]
+    alt_args = [alt(a, k) for a in args]
+    one = 3 + 2 * (k % 7)          # position of one of the seven selectors in SEL
+    single = ["--select", ".=v", "--select", alt(SEL[one], k >> 3) if k & 64 else SEL[one]]
+    single_col = SEL[one].partition("=")[2]
+    if unit["only_oa"]:
+        single = ["--only-objects-and-arrays"] + single
+    variants += [
+        ("alt-spelling", core.Case(alt_args, data)),
+        ("alt-spelling-file", core.Case(alt_args + ["@D@/whole.json"], b"", files=[("whole.json", data)])),
+        ("single-selector", core.Case(single + ["@D@/whole.json"], b"", files=[("whole.json", data)])),
+    ]
     obs = ctx.drv.run_many([base_case] + [c for _, c in variants])
     base = obs[0]
+    by_name = dict((nm, o) for (nm, _), o in zip(variants, obs[1:]))
     for o in obs:
         if o.result != "ok":
             if o.result in ("timeout", "abort"):
@@ -126,6 +147,22 @@ def run_unit(ctx, unit):
                 return
             if any(x.get("n") != want_name for x in rf) or any("n" in x for x in rows):
                 st.violation("file-name", "&file-name is not the file path (or is present for stdin)", unit, {"rows": rf[:3]})
+                return
+        elif name == "alt-spelling-file":
+            if o.stdout != by_name["file"].stdout:
+                st.violation("selector-spelling:file", "selectors written in another letter case / with '_' give different rows for a file input", unit,
+                             {"args": alt_args, "rows": o.stdout[:400], "want": by_name["file"].stdout[:400]})
+                return
+        elif name == "single-selector":
+            try:
+                rs = parse_rows(o.stdout)
+                rf = parse_rows(by_name["file"].stdout)
+            except jm.JsonError as e:
+                st.violation("unreadable-single", str(e), unit, None)
+                return
+            if [(x.get("v", "<absent>"), x.get(single_col, "<absent>")) for x in rs] != [(x.get("v", "<absent>"), x.get(single_col, "<absent>")) for x in rf]:
+                st.violation("selector-alone", "a selector used alone gives another value than next to the other selectors", unit,
+                             {"args": single, "rows": rs[:4], "want": rf[:4]})
                 return
         elif name == "nested-scope":
             try:
